@@ -1,5 +1,10 @@
 """C03 — the AArch64 lifter agrees with the Arm architecture pseudocode (DESIGN §6 C03, LIFTER_BRIEF)."""
+import os
 import re
+import sys
+sys.path.insert(0, os.path.dirname(os.path.abspath(__file__)))
+import types  # noqa: E402
+import smt_tie  # noqa: E402
 ID = "C03"
 HARNESS_BIN = "c03"
 DRIVER = "fvd_c03"
@@ -24,6 +29,7 @@ TRUSTED = [
     "IL semantics: FalconModel/Exec.lean + Lift.lean (tied to falcon's executor by the three-way comparison here and by C07/C08)",
     "the mirror of the lifter FalconModel/Isa/A64Lift.lean is compared syntactically with falcon's dumped IL on every case of its classes",
     "correspondence: harness/src/bin/c03.rs + harness/src/lift.rs + lean/Drivers/C03.lean",
+    smt_tie.TRUSTED,
 ]
 ASSUMPTIONS = [
     "alignment checking off (SCTLR_ELx.A = 0, SA = 0); unaligned load-acquire/store-release accesses fault and are excluded",
@@ -121,6 +127,30 @@ def classify(c):
     return "ok"
 
 
+def _only_mirror(c):
+    """the case is 'broken' for no other reason than MIRROR-DIFF (same decisions as classify, without the counters)"""
+    post, model, spec = _post(c.impl), c.model, c.spec
+    if post is None or not model.startswith("MIRROR-DIFF "):
+        return False
+    model = model[len("MIRROR-DIFF "):]
+    if model in ("unparsable", "bad-request", "rejected"):
+        return False
+    if spec == "unallocated" or spec.startswith("unpredictable") or spec == "fault:alignment":
+        return post == model
+    if spec.startswith("fault:"):
+        return True
+    return post == spec and post == model
+
+
+SMT = smt_tie.new_counters()
+
+
+def resolve_broken(check, cases):
+    """falcon's IL differs syntactically from the mirror's: z3 decides whether it differs semantically (props/smt_tie.py;
+    validation support for the mirror tie, not a theorem)"""
+    return smt_tie.resolve(check, types.SimpleNamespace(**globals()), cases, _only_mirror, SMT)
+
+
 def signature(c):
     post = _post(c.impl)
     if post is None:
@@ -144,7 +174,7 @@ def nontrivial(c):
 
 
 def extra_coverage():
-    return {"c03_counts": STATS,
+    return {"c03_counts": STATS, "mirror_tie_smt": SMT,
             "unproved_classes": ["SIMD&FP transfer registers (V=1) of ldr/str/ldur/stur (immediate, register offset, literal) and ldp/stp/ldnp/stnp",
                                  "outside the statement, reachable through shared mnemonics: AdvSIMD/SVE add/sub/mov, SVE prefetches"],
             "proved_classes": "see lean/FalconProofs/Props/C03.lean header (A)"}
